@@ -47,17 +47,21 @@ Definition write_port (b : bus) (port v : Z) : bus :=
   else b.
 
 Definition on_write_ddr (b : bus) (a ddr : Z) : bus :=
-  let b1 := bset_io1 (sset (b_io1 b) (a - IO1_START) ddr) b in
   let port := a - DDR1 + 1 in
-  let dr := Z.lor (Z.land (read_dr b1 port) ddr) (Z.land (lnot8 ddr) (sget (b_pin b1) (port - 1))) in
+  let old_ddr := read_ddr b port in
+  let latch := Z.lor (Z.land (read_dr b port) old_ddr) (Z.land (sget (b_latch b) (port - 1)) (lnot8 old_ddr)) in
+  let b0 := bset_latch (sset (b_latch b) (port - 1) latch) b in
+  let b1 := bset_io1 (sset (b_io1 b0) (a - IO1_START) ddr) b0 in
+  let dr := Z.lor (Z.land latch ddr) (Z.land (lnot8 ddr) (sget (b_pin b1) (port - 1))) in
   let b2 := write_dr b1 port dr in
   send_io_port_value b2 port (Z.land (read_dr b2 port) ddr).
 
 Definition on_write_dr (b : bus) (a dr : Z) : bus :=
   let port := a - DR1 + 1 in
   let ddr := read_ddr b port in
-  let real_dr := Z.lor (Z.land dr ddr) (Z.land (lnot8 ddr) (sget (b_pin b) (port - 1))) in
-  let b1 := write_dr b port real_dr in
+  let b0 := bset_latch (sset (b_latch b) (port - 1) dr) b in
+  let real_dr := Z.lor (Z.land dr ddr) (Z.land (lnot8 ddr) (sget (b_pin b0) (port - 1))) in
+  let b1 := write_dr b0 port real_dr in
   send_io_port_value b1 port (Z.land dr ddr).
 
 (* ---- Timer8_0::update_tcr (src/modules/timer8.rs), reached via ModuleManager::write_registers ---- *)
@@ -84,8 +88,7 @@ Definition bus_write (b : bus) (a v : Z) : option bus :=
   else if inr DRAM_START DRAM_END a then Some (bset_dram (sset (b_dram b) (a - DRAM_START) v) b)
   else if inr RAM_START RAM_END a then Some (bset_ram (sset (b_ram b) (a - RAM_START) v) b)
   else if inr IO2_START IO2_END a then
-    if (0xffffd0 <=? a) && (a <=? 0xffffda) then
-      if v =? sget (b_io2 b) (a - IO2_START) then Some b else Some (on_write_dr b a v)
+    if (0xffffd0 <=? a) && (a <=? 0xffffda) then Some (on_write_dr b a v)
     else Some (write_registers (bset_io2 (sset (b_io2 b) (a - IO2_START) v) b) a v)
   else None.
 
